@@ -23,6 +23,7 @@ RULE = (
     ' Asynchronous auto-answering interrupt handlers are bodies too; two burst schedules per limit release a second body 1-7 loop passes after the first without waiting for quiescence.'
     ' Directed: a nested chain next to 2-4 siblings queued on the limiter, k = 1..3, 12 (quick) / 60 (thorough) burst schedules each: a release, a woken waiter and a new arrival in one loop turn.'
     ' Directed: runner.map in raise mode with several failing items, each with its own error, k = 1..4, later failures finishing first: same end as the unlimited call.'
+    ' Directed: sibling nested graphs with async interrupt handlers (k = 1..3); a sweep over small body delays under the NATURAL asyncio schedule (nested chain next to three siblings, 128 delay assignments x k = 1..3) with an in-body counter.'
 )
 ASSUMPTIONS = [
     "the bound is on function-node bodies and asynchronous interrupt-handler bodies; gate functions and synchronous handlers are instantaneous decisions that cannot overlap anything",
@@ -260,7 +261,7 @@ def release_window_directed(ctx):
                 continue
             b = norm(base)
             for k in (1, 2, 3):
-                for rep in range(12 if ctx.tier == "quick" else 60):
+                for rep in range(30 if ctx.tier == "quick" else 80):
                     sched = rt.Sched(default="rand", rng=rng, burst=(rng.choice([0.4, 0.6, 0.8]), rng.randint(2, 6)))
                     o = core.execute(spec, inputs, "async", sched=sched, max_concurrency=k)
                     ctx.obs["limited_runs"] += 1
@@ -281,6 +282,42 @@ def release_window_directed(ctx):
                     if norm(o) != b:
                         ctx.violation("C15:result-differs", f"k={k} burst (release-window program): result differs from the unlimited run", c2)
                         break
+    # sibling nested graphs that each hold an ASYNC auto-answering interrupt handler next to an async leaf: handlers are
+    # node bodies like any other (they hold a permit while they run) - bound and termination for k = 1..3
+    for n_sub in (2, 3):
+        nodes = []
+        for j in range(n_sub):
+            inner = {"name": f"rev{j}", "nodes": [
+                {"k": "int", "name": f"ask{j}", "params": [{"n": "x"}], "outs": [f"ans{j}"], "handler": ["auto", f"ans:{j}"], "async": True},
+                {"k": "fn", "name": f"leaf{j}", "params": [{"n": "x"}], "outs": [f"lv{j}"], "async": True},
+            ], "bind": {}}
+            nodes.append({"k": "sub", "name": f"rev{j}", "prog": inner})
+        nodes.append({"k": "fn", "name": "outer_leaf", "params": [{"n": "x"}], "outs": ["ol"], "async": True})
+        spec = {"name": "sibint", "nodes": nodes, "bind": {}}
+        inputs = {"x": "run:x"}
+        base = core.execute(spec, inputs, "async", sched=rt.Sched(default="first"))
+        if base.deadlock or base.inconclusive or base.exc is not None:
+            ctx.inconc(base.inconclusive or f"sibling-interrupt baseline: {base.exc!r}")
+            continue
+        b = norm(base)
+        for k in (1, 2, 3):
+            for pol in ("first", "last", "rand", "rand", "burst", "burst"):
+                sched = rt.Sched(default=pol, rng=rng) if pol != "burst" else rt.Sched(default="rand", rng=rng, burst=(0.6, 5))
+                o = core.execute(spec, inputs, "async", sched=sched, max_concurrency=k)
+                ctx.obs["limited_runs"] += 1
+                ctx.obs["sibling_interrupt_runs"] += 1
+                ctx.obs["handler_bodies_entered"] += sum(1 for e in o.rec.ev if e[0] == "enter" and rt.KIND.get(e[1]) == "int-async")
+                c2 = {"spec": spec, "inputs": inputs, "form": "run", "depth": 1, "k": k, "policy": pol, "directed": "sibling-interrupts"}
+                if o.deadlock:
+                    ctx.violation("C15:deadlock", f"k={k} {pol}: {n_sub} sibling nested graphs with async interrupt handlers: loop quiescent, call not finished", c2)
+                    continue
+                if o.inconclusive:
+                    ctx.inconc(o.inconclusive)
+                    continue
+                if o.rec.max_inflight_fn > k:
+                    ctx.violation("C15:bound-exceeded", f"k={k} {pol}: {o.rec.max_inflight_fn} bodies (async interrupt handlers included) executing at the same instant in {n_sub} sibling nested graphs", c2)
+                elif norm(o) != b:
+                    ctx.violation("C15:result-differs", f"k={k} {pol}: sibling nested graphs with interrupts: result differs from the unlimited run", c2)
     ctx.case({"directed": "release-window"}, True)
 
 
@@ -338,6 +375,92 @@ def bounded_map_failures(ctx):
     ctx.case({"directed": "bounded-map-failures"}, True)
 
 
+def natural_schedule_sweep(ctx):
+    """The limiter under the NATURAL asyncio schedule: bodies that suspend a chosen number of loop turns (no controlled
+    scheduler, so a permit can be released in the very turn in which a new node reaches the limiter and before the
+    woken waiter runs). A nested chain P -> Q next to three siblings; every assignment of small delays (P 1..4 turns, the
+    first sibling 1..8, the others short or long), k = 1..3: at most k bodies open at any instant, the call finishes, and
+    the values are those of the unlimited call. Own in-body counter; termination judged in loop turns, not seconds."""
+    import asyncio
+    import itertools
+
+    from hypergraph import AsyncRunner, FunctionNode, Graph
+
+    state = {"open": 0, "peak": 0}
+
+    def body(tag, turns):
+        async def f(x):
+            state["open"] += 1
+            state["peak"] = max(state["peak"], state["open"])
+            try:
+                for _ in range(turns):
+                    await asyncio.sleep(0)
+            finally:
+                state["open"] -= 1
+            return (tag, x)
+
+        f.__name__ = tag
+        return f
+
+    def build(dp, dq, d1, d2, d3):
+        inner = Graph([FunctionNode(body("P", dp), name="P", output_name="pv"), FunctionNode(lambda pv: None, name="unused", output_name="u0") if False else FunctionNode(body("Q", dq), name="Q", output_name="qv").with_inputs(x="pv")], name="nest")
+        return Graph([inner.as_node(), FunctionNode(body("S1", d1), name="S1", output_name="s1"), FunctionNode(body("S2", d2), name="S2", output_name="s2"), FunctionNode(body("S3", d3), name="S3", output_name="s3")], name="nat")
+
+    async def run_one(g, k):
+        r = AsyncRunner()
+        t = asyncio.ensure_future(r.run(g, {"x": 1}, **({"max_concurrency": k} if k else {})))
+        for _ in range(3000):
+            if t.done():
+                break
+            await asyncio.sleep(0)
+        if not t.done():
+            t.cancel()
+            await asyncio.gather(t, return_exceptions=True)
+            return None
+        return t.result()
+
+    for dp, d1, (d2, d3) in itertools.product((1, 2, 3, 4), range(1, 9), ((1, 1), (3, 10), (10, 3), (10, 10))):
+        g = build(dp, 2, d1, d2, d3)
+        base = asyncio.run(run_one(g, None))
+        for k in (1, 2, 3):
+            state["open"], state["peak"] = 0, 0
+            res = asyncio.run(run_one(g, k))
+            ctx.obs["limited_runs"] += 1
+            ctx.obs["natural_schedule_runs"] += 1
+            c2 = {"program": "nested chain P->Q next to S1..S3, natural schedule", "delays": {"P": dp, "Q": 2, "S1": d1, "S2": d2, "S3": d3}, "k": k}
+            if res is None:
+                ctx.violation("C15:deadlock", f"k={k}, delays {c2['delays']}: the call did not finish within 3000 loop turns (unlimited: {'finished' if base is not None else 'did not finish either'})", c2)
+            elif state["peak"] > k:
+                ctx.violation("C15:bound-exceeded", f"k={k}, delays {c2['delays']} (natural schedule): {state['peak']} bodies open at the same instant", c2)
+            elif base is not None and res.values != base.values:
+                ctx.violation("C15:result-differs", f"k={k}, delays {c2['delays']}: values differ from the unlimited call", c2)
+    # second shape: two plain nodes hold the permits first, a nested chain P -> Q and two DOUBLY nested single nodes queue
+    # behind them; the second plain node gives its permit back c turns after P finished, for every c in 0..12 (the
+    # moment at which the nested graph brings Q to the limiter lies in that range)
+    def build2(d0, d1, dp):
+        chain = Graph([FunctionNode(body("P", dp), name="P", output_name="pv"), FunctionNode(body("Q", 2), name="Q", output_name="qv").with_inputs(x="pv")], name="chain")
+        r_mid = Graph([Graph([FunctionNode(body("R", 6), name="R", output_name="rv")], name="r_in").as_node()], name="r_mid")
+        s_mid = Graph([Graph([FunctionNode(body("S", 6), name="S", output_name="sv")], name="s_in").as_node()], name="s_mid")
+        return Graph([FunctionNode(body("n0", d0), name="n0", output_name="o0"), FunctionNode(body("n1", d1), name="n1", output_name="o1"), chain.as_node(), r_mid.as_node(), s_mid.as_node()], name="nat2")
+
+    for d0, dp, c in itertools.product((1, 2, 3), (1, 2, 3), range(0, 13)):
+        g = build2(d0, d0 + dp + c, dp)
+        base = asyncio.run(run_one(g, None))
+        for k in (2, 1, 3):
+            state["open"], state["peak"] = 0, 0
+            res = asyncio.run(run_one(g, k))
+            ctx.obs["limited_runs"] += 1
+            ctx.obs["natural_schedule_runs"] += 1
+            c2 = {"program": "n0, n1, chain P->Q, doubly nested R and S; natural schedule", "delays": {"n0": d0, "n1": d0 + dp + c, "P": dp}, "k": k}
+            if res is None:
+                ctx.violation("C15:deadlock", f"k={k}, delays {c2['delays']}: the call did not finish within 3000 loop turns", c2)
+            elif state["peak"] > k:
+                ctx.violation("C15:bound-exceeded", f"k={k}, delays {c2['delays']} (natural schedule): {state['peak']} bodies open at the same instant", c2)
+            elif base is not None and res.values != base.values:
+                ctx.violation("C15:result-differs", f"k={k}, delays {c2['delays']}: values differ from the unlimited call", c2)
+    ctx.case({"directed": "natural-schedule-sweep"}, True)
+
+
 def run(ctx):
     n = 40 if ctx.tier == "quick" else 1000
     core.WARM_P = 0.0
@@ -356,6 +479,7 @@ def run(ctx):
     if ctx.shard[0] == 0:
         release_window_directed(ctx)
         bounded_map_failures(ctx)
+        natural_schedule_sweep(ctx)
     for i in range(n):
         if i % 5 == 4:
             sequence_case(ctx, i)
